@@ -10,6 +10,7 @@ pub mod c11;
 pub mod c12;
 pub mod c13;
 pub mod c15;
+pub mod c17;
 pub mod common;
 
 pub fn run(id: &str, tier: Tier) -> i32 {
@@ -23,6 +24,7 @@ pub fn run(id: &str, tier: Tier) -> i32 {
         "C12" => c12::run(tier),
         "C13" => c13::run(tier),
         "C15" => c15::run(tier),
+        "C17" => c17::run(tier),
         _ => machinery(&format!("no check for property {id}")),
     }
 }
@@ -43,6 +45,7 @@ pub fn replay(id: &str, path: &str) -> i32 {
             "C12" => c12::replay(case),
             "C13" => c13::replay(case),
             "C15" => c15::replay(case),
+            "C17" => c17::replay(case),
             _ => machinery(&format!("no replay for property {id}")),
         }
     };
